@@ -342,6 +342,8 @@ def short(scn):
             s += 'X0'
         elif node['out'] == 'raise_base':
             s += 'XB'
+        elif node['out'] == 'selfcancel':
+            s += 'XC'
         if node.get('cx'):
             s += '/cx'
         if node.get('cdelay'):
@@ -358,4 +360,5 @@ def short(scn):
         + ('' if not scn.get('late') else ' late=%s' % (scn['late'],)) \
         + ('' if not scn.get('peek') else ' peek=%s' % scn['peek']) \
         + ('' if not scn.get('build') else ' build=%s' % scn['build']) \
+        + ('' if not scn.get('rerun') else ' rerun') \
         + ('' if not scn.get('dangle') else ' dangle=%s' % (scn['dangle'],))
